@@ -1,7 +1,6 @@
 package props
 
 import (
-	"bytes"
 	"errors"
 	"fmt"
 	"io"
@@ -175,10 +174,15 @@ func (st *c03State) valueCase(family, text string) {
 	if pi := core.Safe(func() {
 		v, err := ggql.ParseValueString(text)
 		if err == nil {
-			var b bytes.Buffer
-			for _, ind := range []int{-1, 0, 2} {
-				_ = ggql.WriteSDLValue(&b, v, ind)
-				_ = ggql.WriteJSONValue(&b, v, ind)
+			// the indented print of a value nested d deep is d*d*indent bytes: beyond 10 000 levels (gigabytes) only the
+			// linear forms are printed - a slow print of an enormous text is not a hang
+			inds := []int{-1, 0, 2}
+			if strings.Count(text, "[")+strings.Count(text, "{") > 10000 {
+				inds = inds[:2]
+			}
+			for _, ind := range inds {
+				_ = ggql.WriteSDLValue(io.Discard, v, ind)
+				_ = ggql.WriteJSONValue(io.Discard, v, ind)
 			}
 			c.Nontrivial()
 		}
@@ -670,6 +674,49 @@ func runC03(c *core.Ctx) {
 			}
 		}
 	}
+	// ---- (iii-g) application values the schema does not know: behind every object / interface / union / list position a Go value
+	// whose type is bound to nothing (or is not even a struct), under the reflection, Resolver and AnyResolver ways of resolving,
+	// for every request shape that descends into it - the answer may be null or an error, never a panic, never a spin
+	if own() {
+		sdl := "interface Node { id: ID }\ntype A implements Node { id: ID n: Node }\nunion U = A\ntype Query { node: Node nodes: [Node] u: U us: [U!] a: A as: [A] }\n"
+		requests := []string{
+			"{ node { id } }", "{ nodes { id } }", "{ node { ... on Node { id } } }", "{ node { ... on A { id } } }", "{ node { ...F } } fragment F on Node { id }",
+			"{ u { ... on A { id } } }", "{ us { ... on A { id } } }", "{ a { id } }", "{ as { id } }", "{ node { __typename } }", "{ u { __typename } us { __typename } }",
+			"{ a { __typename n { id } } }", "{ nodes { __typename ... on A { n { id } } } }",
+		}
+		for vi, mk := range c03StrangerValues {
+			for mode := 0; mode < 3; mode++ {
+				for _, rq := range requests {
+					if !c.NextCase(fmt.Sprintf("stranger-value #%d mode=%d ResolveString: %s", vi, mode, rq)) {
+						continue
+					}
+					c.Eval()
+					c.R.Distinct++
+					c.Nontrivial()
+					if pi := core.Safe(func() {
+						v := mk()
+						var root *ggql.Root
+						switch mode {
+						case 0: // reflection all the way
+							root = ggql.NewRoot(&c03OddSchema{Query: &c03OddQuery{Node: v, Nodes: []interface{}{v, nil, v}, U: v, Us: []interface{}{v}, A: v, As: []interface{}{v, v}}})
+						case 1: // a Resolver at the top hands the value out
+							root = ggql.NewRoot(c03OddResolver{v})
+						default: // an AnyResolver that knows the top only
+							root = ggql.NewRoot(nil)
+							root.AnyResolver = &c03OddAny{v}
+						}
+						if err := root.ParseString(sdl); err != nil {
+							panic(core.EngineError{Msg: "C03 stranger schema refused: " + err.Error()})
+						}
+						res := root.ResolveString(rq, "", nil)
+						_ = ggql.WriteJSONValue(io.Discard, res, -1)
+					}); pi != nil {
+						st.panicked("stranger-value", "ResolveString", pi, fmt.Sprintf("value #%d mode %d: %s", vi, mode, rq))
+					}
+				}
+			}
+		}
+	}
 	// ---- (iv) reader faults at every Read call of every corpus document
 	for di, doc := range append(append([]string{}, exeCorpus[:6]...), sdlCorpus[:3]...) {
 		isSDL := di >= 6
@@ -734,6 +781,74 @@ func runC03(c *core.Ctx) {
 	if c.Expired() {
 		c.Cap("deadline reached")
 	}
+}
+
+// family iii-g: values of Go types the schema is bound to in no way
+type c03Stranger struct{ ID string }
+type c03StrangerM struct{}
+
+func (c03StrangerM) Id() string { return "m" }
+
+var c03StrangerValues = []func() interface{}{
+	func() interface{} { return &c03Stranger{ID: "p"} },
+	func() interface{} { return c03Stranger{ID: "v"} },
+	func() interface{} { return c03StrangerM{} },
+	func() interface{} { return (*c03Stranger)(nil) },
+	func() interface{} { return 7 },
+	func() interface{} { return "text" },
+	func() interface{} { return map[string]interface{}{"id": "m"} },
+	func() interface{} { return []interface{}{&c03Stranger{ID: "l"}} },
+	func() interface{} { return func() {} },
+	func() interface{} { var p *int; return &p },
+}
+
+type c03OddSchema struct{ Query *c03OddQuery }
+type c03OddQuery struct {
+	Node  interface{}
+	Nodes []interface{}
+	U     interface{}
+	Us    []interface{}
+	A     interface{}
+	As    []interface{}
+}
+
+type c03OddResolver struct{ v interface{} }
+
+func (r c03OddResolver) Resolve(field *ggql.Field, args map[string]interface{}) (interface{}, error) {
+	switch field.Name {
+	case "query":
+		return r, nil
+	case "nodes", "us", "as":
+		return []interface{}{r.v, r.v}, nil
+	}
+	return r.v, nil
+}
+
+type c03OddAny struct{ v interface{} }
+
+func (r *c03OddAny) Resolve(obj interface{}, field *ggql.Field, args map[string]interface{}) (interface{}, error) {
+	if obj == nil || obj == interface{}(r) {
+		switch field.Name {
+		case "query":
+			return r, nil
+		case "nodes", "us", "as":
+			return []interface{}{r.v, r.v}, nil
+		}
+		return r.v, nil
+	}
+	return nil, fmt.Errorf("unknown object %T", obj)
+}
+func (r *c03OddAny) Len(list interface{}) int {
+	if l, ok := list.([]interface{}); ok {
+		return len(l)
+	}
+	return 0
+}
+func (r *c03OddAny) Nth(list interface{}, i int) (interface{}, error) {
+	if l, ok := list.([]interface{}); ok && i < len(l) {
+		return l[i], nil
+	}
+	return nil, fmt.Errorf("no element %d", i)
 }
 
 // C03In is the Go struct an application registers for the input type In (family iii-f).
